@@ -18,7 +18,7 @@ import logging
 from lib.verif import coq_list
 
 PROP_FILES = ['Props/C08.v']
-LEVEL = 'partial'          # complete delivery is proved only for schedules without timer events (D08t)
+LEVEL = 'proof'
 
 logging.disable(logging.CRITICAL)
 
@@ -476,6 +476,9 @@ Definition ertm_case (mps_a win_a mps_b win_b : Z) (fcs : bool) (cid_a cid_b : Z
   let s := run (sys_init mps_a win_a mps_b win_b) sched in
   (wire fcs cid_b (s_log_ab s), wire fcs cid_a (s_log_ba s),
    map digest (s_sink_a s), map digest (s_sink_b s), quiescent s).
+Definition foreign_case (mps win cid : Z) (ls : list elabel) :=
+  let '(e, out, sdus) := erun (ep_init mps win) ls in
+  (wire false cid out, map digest sdus).
 Definition basic_case (fcs : bool) (cid_a cid_b : Z) (sa sb : list blabel) :=
   let a := brun (mkB [] []) sa in let b := brun (mkB [] []) sb in
   (map (enc_pdu fcs cid_b) (b_sink a ++ b_chan a), map (enc_pdu fcs cid_a) (b_sink b ++ b_chan b),
@@ -961,6 +964,201 @@ def _finish_crc(ctx, datas, vals):
                           {'kind': 'crc', 'data': d.hex()})
 
 
+# ----------------------------------------------------------------------------- foreign peer
+def gen_foreign_case(rng):
+    """One real endpoint (A) against frames crafted by the harness: in-sequence and
+    out-of-sequence I-frames, RR / REJ / RNR / SREJ with valid and bogus ReqSeq, P and F bits,
+    truncated payloads; mixed with A's writes and A's timers."""
+    mps = rng.choice([1, 2, 3, 10, 23])
+    win = rng.choice([1, 2, 3, 8, 63])
+    cfg = {'a': {'mode': 'ertm', 'mps': rng.choice([1, 5, 23]), 'win': rng.choice([1, 3, 63]), 'mtu': 2048,
+                 'fcs': False, 'feat': True},
+           'b': {'mode': 'ertm', 'mps': mps, 'win': win, 'mtu': 2047, 'fcs': False, 'feat': True}, 'srv': True}
+    ops = []
+    exp = 0          # TxSeq A expects next (if every in-sequence frame below is accepted)
+    sent = 0         # upper bound of the I-frames A may have sent
+    tag = 0
+    for _ in range(rng.range(3, 24)):
+        r = rng.below(100)
+        if r < 25:
+            tag += 1
+            n = rng.choice([0, 1, mps, mps + 1, 3 * mps, 7 * mps + 1, 20 * mps])
+            sent += max(1, -(-n // mps))
+            ops.append(['WA', tag, n])
+        elif r < 45:
+            # I-frame
+            if rng.chance(3, 4):
+                tx = exp
+                exp = (exp + 1) % 64
+            else:
+                tx = rng.below(64)
+            req = rng.choice([rng.below(64), sent % 64, max(0, sent - 1) % 64, 0])
+            sar = rng.below(4)
+            body = bytes([(tx << 1) | (rng.below(2) << 7), req | (sar << 6)])
+            data = rng.bytes(rng.choice([0, 1, 2, 3, 5]))
+            if sar == 1 and rng.chance(3, 4):
+                data = bytes([len(data), 0]) + data
+            ops.append(['RX', (body + data).hex()])
+        elif r < 85:
+            func = rng.choice([0, 0, 0, 1, 2, 2, 3])
+            req = rng.choice([rng.below(128), sent % 64, max(0, sent - 1) % 64, max(0, sent - 2) % 64])
+            b0 = 1 | (func << 2) | (rng.choice([0, 0, 0, 1]) << 4) | (rng.choice([0, 0, 1]) << 7)
+            ops.append(['RX', bytes([b0, req]).hex()])
+        elif r < 90:
+            ops.append(['RX', rng.bytes(rng.choice([0, 1, 2, 3])).hex()])
+        elif r < 96:
+            ops.append(['TA'])
+        else:
+            ops.append(['MA'])
+    return cfg, ops
+
+
+def run_foreign(cfg, ops):
+    async def main():
+        p = Pair(cfg)
+        await p.start()
+        steps = 0
+        while (p.ab or p.ba) and steps < SETUP_BUDGET:
+            await p.deliver('AB' if p.ab else 'BA')
+            steps += 1
+        res = {'a': p.end_obs('a'), 'b': p.end_obs('b')}
+        res['open'] = bool(res['a'] and res['b'] and res['a'][1] == 'OPEN' and res['b'][1] == 'OPEN')
+        if not res['open']:
+            await p.finish()
+            return res
+        cha, chb = p.chan_a, p.b_channels[0]
+        base = len(p.ab)
+        counts = []       # after each op: PDUs A has put on the wire
+        raised = []
+        for op in ops:
+            if op[0] == 'WA':
+                try:
+                    cha.write(mk_sdu(op[1], op[2]))
+                except Exception as e:  # pylint: disable=broad-except
+                    raised.append(['write', type(e).__name__])
+            elif op[0] == 'RX':
+                try:
+                    p.ma.on_pdu(p.ca, cha.source_cid, bytes.fromhex(op[1]))
+                except IndexError:
+                    # from_bytes on fewer than 2 bytes; expected exactly then
+                    raised.append(['short', len(op[1]) // 2])
+                except Exception as e:  # pylint: disable=broad-except
+                    raised.append(['rx', type(e).__name__])
+                for _ in range(2):
+                    await asyncio.sleep(0)
+            elif op[0] == 'TA':
+                await _advance_clock(RETX_TIMEOUT + 0.5)
+            elif op[0] == 'MA':
+                await _advance_clock(MONITOR_TIMEOUT + 0.5)
+            counts.append(len(p.ab) - base)
+        res.update({'wire': [x.hex() for x in p.ab[base:]], 'sink': [x.hex() for x in p.sink_a],
+                    'counts': counts, 'raised': raised, 'cid_b': chb.source_cid,
+                    'state': p.end_obs('a')[1]})
+        await p.finish()
+        return res
+    return _run(main())
+
+
+def foreign_oracle(cfg, ops, res):
+    """Safety of one endpoint against any peer, over implementation observables."""
+    for kind, what in res['raised']:
+        if kind != 'short' or what >= 2:
+            return 'raised', f'{kind} raised {what}'
+    win, mps = cfg['b']['win'], cfg['b']['mps']
+    written = [mk_sdu(op[1], op[2]) for op in ops if op[0] == 'WA']
+    # frames
+    nexp = 0
+    acc, sdus = b'', []
+    is_i = []
+    for k, hx in enumerate(res['wire']):
+        x = bytes.fromhex(hx)
+        body = x[4:]
+        if (x[0] | (x[1] << 8)) != len(body) or (x[2] | (x[3] << 8)) != res['cid_b'] or len(body) < 2:
+            return 'pdu-header', f'PDU {k}: bad header'
+        if body[0] & 1:
+            is_i.append(False)
+            if (body[0] >> 2) & 3 != 0:
+                return 'sframe', f'PDU {k}: supervisory function {(body[0] >> 2) & 3} sent (only RR is expected)'
+            continue
+        is_i.append(True)
+        if (body[0] >> 1) & 63 != nexp % 64:
+            return 'seq', f'I-frame {nexp}: TxSeq {(body[0] >> 1) & 63}'
+        nexp += 1
+        sar = (body[1] >> 6) & 3
+        payload = body[4:] if sar == 1 else body[2:]
+        if len(payload) > mps:
+            return 'mps', f'I-frame {nexp - 1}: {len(payload)} payload bytes > peer MPS {mps}'
+        acc += payload
+        if sar in (0, 2):
+            sdus.append(acc)
+            acc = b''
+    if sdus != written[:len(sdus)] or (acc and (len(sdus) >= len(written) or not written[len(sdus)].startswith(acc))):
+        return 'frames', 'the I-frames sent are not a prefix of the segmentation of the SDUs written'
+    # window: replay the acknowledgements the harness itself sent
+    lack = acked = 0
+    seen = sent_i = 0
+    for op, n in zip(ops, res['counts']):
+        if op[0] == 'RX':
+            b = bytes.fromhex(op[1])
+            if len(b) >= 2:
+                req = (b[1] & 0x7F) if (b[0] & 1) else (b[1] & 0x3F)
+                k = (req - lack) % 64
+                if k <= sent_i - acked:
+                    acked += k
+                    lack = req
+        while seen < n:
+            if is_i[seen]:
+                sent_i += 1
+            seen += 1
+        if sent_i - acked > win:
+            return 'window', f'{sent_i - acked} unacknowledged I-frames, the peer advertised {win}'
+    return None
+
+
+def foreign_expr(cfg, ops, res):
+    def lab(op):
+        if op[0] == 'WA':
+            return f'EWrite (mk_sdu {op[1]} {op[2]})'
+        if op[0] == 'RX':
+            return 'ERecvRaw ' + coq_list(list(bytes.fromhex(op[1])))
+        if op[0] == 'TA':
+            return 'ERetx'
+        return 'EMon; ERetx'
+    return f"foreign_case {cfg['b']['mps']} {cfg['b']['win']} {res['cid_b']} {coq_list(ops, lab)}"
+
+
+def check_foreign(ctx, cases):
+    results = [run_foreign(cfg, ops) for cfg, ops in cases]
+    exprs = [foreign_expr(cfg, ops, res) for (cfg, ops), res in zip(cases, results) if res.get('open')]
+
+    def finish(model):
+        it = iter(model)
+        for k, ((cfg, ops), res) in enumerate(zip(cases, results)):
+            if not res.get('open'):
+                continue
+            m_wire, m_sink = next(it)
+            kinds = {op[0] for op in ops}
+            ctx.case(('foreign', json.dumps(cfg, sort_keys=True), json.dumps(ops)), len(res['wire']) > 0,
+                     {'kind': 'foreign', 'mps': cfg['b']['mps'], 'win': cfg['b']['win'], 'ops': len(ops),
+                      'pdus_sent': len(res['wire'])} if k % 29 == 2 else None)
+            ctx.count('foreign.cases')
+            ctx.count('foreign.frames_injected', sum(1 for op in ops if op[0] == 'RX'))
+            ctx.count('foreign.pdus_sent', len(res['wire']))
+            if kinds & {'TA', 'MA'}:
+                ctx.count('foreign.with_timers')
+            replay = {'kind': 'foreign', 'cfg': cfg, 'ops': ops}
+            bad = foreign_oracle(cfg, ops, res)
+            if bad:
+                ctx.violation(f'foreign:{bad[0]}', f"foreign peer, mps={cfg['b']['mps']} win={cfg['b']['win']}: {bad[1]}", replay)
+            mo = [[bytes(x).hex() for x in m_wire], [list(x) for x in m_sink]]
+            io = [res['wire'], [[len(bytes.fromhex(x)), _crc(bytes.fromhex(x))] for x in res['sink']]]
+            if mo != io:
+                first = 0 if mo[0] != io[0] else 1
+                ctx.disagree('EnhancedRetransmissionProcessor vs foreign peer (' + ['PDUs sent', 'sink'][first] + ')',
+                             replay, _trim(mo[first]), _trim(io[first]))
+    return exprs, finish
+
+
 # ----------------------------------------------------------------------------- corpus
 def load_corpus():
     import glob
@@ -984,10 +1182,10 @@ def run(ctx):
                 'both wires and every sink compared with run of Model/Ertm.v on the executed label list; '
                 'non-trivial = at least one SDU was segmented (or Basic mode). crc: seeded byte strings.')
     ctx.assumptions += [
-        'ERTM retransmission and monitor timers do not fire: hypothesis no_timer of every ERTM theorem. The '
-        'harness freezes the event-loop clock, so no timer fires unless a scenario advances the clock on '
-        'purpose; those scenarios (only A writes) are compared with the model\'s TimeoutRetxA / TimeoutMonA '
-        'transitions and exhibit the known finding D08t (C08_ertm_timer_stall_refuted)',
+        'timers: the theorems cover every firing of the retransmission / monitor timers (model labels '
+        'TimeoutRetxA/B, TimeoutMonA/B). The harness freezes the event-loop clock, so no timer fires unless a '
+        'scenario advances the clock on purpose; those scenarios (only A writes, so that it is determined which '
+        'timer is due) are compared with the model\'s timer transitions',
         'the link is a pair of reliable FIFO wires; a schedule is an interleaving of writes and deliveries',
         'the sink does not write from inside on_sdu; writes happen only on an OPEN channel',
         'transmit window 1..63, MPS >= 1, SDU length <= 65535 (the 16-bit SDU length field)',
@@ -1029,10 +1227,12 @@ def run(ctx):
     batches.append(check_data(ctx, cases))
     # ---- small scope: every delivery order of a few tiny scenarios
     batches.append(check_small_scope(ctx, ctx.n(40, 4000)))
-    # ---- timers: scenarios outside the no_timer hypothesis (known finding D08t)
+    # ---- timers: the clock is advanced so that A's retransmission / monitor timers fire (D08t)
     tcases = [gen_timer_case(rng) for _ in range(ctx.n(12, 200))]
     batches.append(check_data(ctx, tcases))
     ctx.count('data.timer_scenarios', len(tcases))
+    # ---- one endpoint against a foreign peer (REJ / SREJ / RNR, bogus acknowledgements, ...)
+    batches.append(check_foreign(ctx, [gen_foreign_case(rng) for _ in range(ctx.n(40, 1500))]))
     batches.append(crc_cases(ctx, ctx.n(60, 600)))
     # ---- one evaluation of all model expressions (a single pass through the Coq lock)
     exprs = [e for ex, _ in batches for e in ex]
@@ -1095,6 +1295,11 @@ def replay(ctx, obj):
             print('PDUs A->B:', len(res['wire_ab']), 'B->A:', len(res['wire_ba']))
             print('sink A:', [len(x) // 2 for x in res['sink_a']], 'sink B:', [len(x) // 2 for x in res['sink_b']])
             print('oracle:', data_oracle(r['cfg'], res) or 'holds')
+    elif r['kind'] == 'foreign':
+        res = run_foreign(r['cfg'], r['ops'])
+        print('PDUs sent by A:', res.get('wire'))
+        print('sink of A:', res.get('sink'))
+        print('oracle:', (foreign_oracle(r['cfg'], r['ops'], res) if res.get('open') else 'set-up failed') or 'holds')
     else:
         from bumble import utils
         d = bytes.fromhex(r['data'])
